@@ -40,11 +40,18 @@ package server
 //@   loop 2 "range embargoes"
 //@     invariant nolocks() && len(embargoes) == len(q)
 
+// reject: every base gets the rejecting receive function before the queue is drained; indices in
+// range.
 //@ func answerQueue.reject
 //@   props C12
 //@   locktypestate
-//@   partial lock
+//@   partial lock bounds
 //@   requires aq != nil && nolocks()
+//@   loop 0 "range aq.bases"
+//@     invariant onlyheld(&aq.mu) && len(aq.bases) == len(q)+1
+//@     invariant forall(0, rangeidx, func(k int) bool { return aq.bases[k].recv != nil })
+//@   loop 1 "range q"
+//@     invariant nolocks()
 
 //@ func structReturner.AllocResults -> s, err
 //@   props C12
